@@ -216,5 +216,6 @@ Definition start (s : state) (e : event) (now : Z) : rstate :=
   {| st := s ; tbuf := [TAdd (blank e) None] ; wakeups := [] ; wseq := 0 ; idle_pending := false ;
      mailbox := [] ; pending := [] ; runningw := [] ; donew := [] ; published := [] ; ticklog := [] ;
      outcome := ORunning ; clock := now ; tlog := [] ; idlelog := [] |}.
-Definition run (P : policy) (s : state) (e : event) (acts : list action) : rstate :=
-  fold_left (act P) acts (run_until_blocked P (start s e 100) loop_fuel).
+Definition run_at (P : policy) (s : state) (e : event) (now : Z) (acts : list action) : rstate :=
+  fold_left (act P) acts (run_until_blocked P (start s e now) loop_fuel).
+Definition run (P : policy) (s : state) (e : event) (acts : list action) : rstate := run_at P s e 100 acts.
